@@ -188,6 +188,23 @@ def r11_3(ctx):
         else:
             r.violate(b.name, "duplicate:%s" % m, b.where(g[0][0]),
                       "a retransmitted %s (duplicate message_seq) is dropped: %s - a lost final flight is never repaired" % (m, why))
+    # the repair must be reachable in the role that SENDS the last flight of a full handshake: the server (flight 6,
+    # ChangeCipherSpec + Finished). The client's flights are covered by its own retransmission timer.
+    from rules import c02
+    resend = [bi for bi, t, p in b.calls() if p and p.endswith("send_dtls_record_batch") and bi in reach
+              and any(mir.has_field(b.term_operand(a), "last_flight_records") for a in t["a"])]
+    hh = [bi for bi, t, p in b.calls() if p and p.endswith("handle_handshake_message") and bi in reach]
+    not_server = set(c02._role_edges(b, False))
+    for what, sites in (("re-send of the stored final flight", resend), ("re-run of the ClientHello handler", hh)):
+        if not sites:
+            r.violate(b.name, "duplicate:resend", b.where(g[0][0]), "no %s in the duplicate branch" % what)
+            continue
+        ok = any(b.path_to(starts or [t for _, t in g], s_, cut_edges=set(b.back_edges()) | not_server) is not None for s_ in sites)
+        if ok:
+            r.ok({what: "reachable from the duplicate branch with is_client == false"})
+        else:
+            r.violate(b.name, "duplicate:role", b.where(sites[0]),
+                      "the %s is only reachable when is_client is true: the server - the sender of the last flight - never repairs its loss" % what)
     return r
 
 
